@@ -18,7 +18,7 @@ from simkit.core import RunResult, ddmin_list, short_hash
 
 LEVEL = {"C09": "exploration"}
 TIERS = {"C09": (2500, 150, 60000, 1200)}
-PROBES = {"C09": ["ensemble", "pipeline", "multiplexer", "stacking", "online_ensemble", "hedge_weights_learnt", "hedge_batch_of_several", "nested_member",
+PROBES = {"C09": ["ensemble", "pipeline", "multiplexer", "stacking", "online_ensemble", "member_list_reconfigured_without_refit", "hedge_weights_learnt", "hedge_batch_of_several", "nested_member",
                   "skip_inverse_transform_tag", "update_propagation_checked",
                   "final_forecaster_representation_checked", "holdout_checked",
                   "members_are_clones_checked", "parallel_member_fit", "update_params_false",
@@ -106,6 +106,9 @@ def generate(prop, rng, tier):
         while not positive and C._contains_kind(f, ("theta", "ttf")):
             f = member()
         spec = {"kind": "ttf", "transformers": ts, "forecaster": f}
+    if kind != "ttf" and rng.random() < 0.25:
+        # member names that are contained in one another ("m", "mm", "mmm")
+        spec["names"] = "nested"
     fh_fit = C.needs_fh_at_fit(dict(spec, kind="ensemble") if kind == "online" else spec) or rng.random() < 0.3
     n0 = C.min_train_len(dict(spec, kind="ensemble") if kind == "online" else spec, max(steps)) + \
         rng.randint(2, 14 if not big else 40)
@@ -136,6 +139,13 @@ def generate(prop, rng, tier):
 
 
 # ------------------------------------------------------------------ building with spies
+def _mname(spec, i):
+    """Name of member i as the user wrote it: m0, m1, ... or names contained in one another."""
+    if spec.get("names") == "nested":
+        return "m" * (i + 1)
+    return "m%d" % i
+
+
 def build_spied(spec):
     """The composite under test, its parts wrapped in spies."""
     from sktime.forecasting.compose import (
@@ -143,7 +153,7 @@ def build_spied(spec):
     SF, ST = peers.SpyForecaster, peers.SpyTransformer
     k = spec["kind"]
     if k == "ensemble":
-        return EnsembleForecaster([("m%d" % i, SF(C.build(m), tag="m%d" % i))
+        return EnsembleForecaster([(_mname(spec, i), SF(C.build(m), tag="m%d" % i))
                                    for i, m in enumerate(spec["members"])],
                                   n_jobs=spec.get("n_jobs"), aggfunc=spec["aggfunc"])
     if k == "online":
@@ -156,15 +166,15 @@ def build_spied(spec):
             from sklearn.metrics import mean_squared_error
             from sktime.forecasting.online_learning import NormalHedgeEnsemble
             algo = NormalHedgeEnsemble(n_estimators=len(spec["members"]), loss_func=mean_squared_error)
-        return OnlineEnsembleForecaster([("m%d" % i, SF(C.build(m), tag="m%d" % i))
+        return OnlineEnsembleForecaster([(_mname(spec, i), SF(C.build(m), tag="m%d" % i))
                                          for i, m in enumerate(spec["members"])],
                                         ensemble_algorithm=algo, n_jobs=spec.get("n_jobs"))
     if k == "mux":
-        return MultiplexForecaster([("m%d" % i, SF(C.build(m), tag="m%d" % i))
+        return MultiplexForecaster([(_mname(spec, i), SF(C.build(m), tag="m%d" % i))
                                     for i, m in enumerate(spec["members"])],
-                                   selected_forecaster="m%d" % spec["selected"])
+                                   selected_forecaster=_mname(spec, spec["selected"]))
     if k == "stack":
-        return StackingForecaster([("m%d" % i, SF(C.build(m), tag="m%d" % i))
+        return StackingForecaster([(_mname(spec, i), SF(C.build(m), tag="m%d" % i))
                                    for i, m in enumerate(spec["members"])],
                                   final_regressor=peers.StubRegressor(tag="meta"),
                                   n_jobs=spec.get("n_jobs"))
@@ -236,7 +246,7 @@ def execute(prop, scen):
     fit_kw = {}
     if kind == "mux" and scen["series"]["seed"] % 5 < 2:
         # per-member fit parameters: the selected member gets its own
-        fit_kw = {"m%d" % i: {"spy_marker": i} for i in range(len(spec["members"]))}
+        fit_kw = {_mname(spec, i): {"spy_marker": i} for i in range(len(spec["members"]))}
     with sched.scenario_schedule(sc):
         mark = len(peers.CTX.log)
         fh_user = fh_fit
@@ -391,13 +401,38 @@ def execute(prop, scen):
                               a_, np.round(np.asarray(p[1], float)[:2], 4).tolist() if isinstance(p, tuple)
                               else type(p).__name__, np.round(np.asarray(q[1], float)[:2], 4).tolist()),
                           composite="mux", what="intervals")
+        # ---- the member list is re-configured (one entry more, or one fewer) and NOT fitted again:
+        # the forecast is still the aggregate of the members that were fitted
+        if kind == "ensemble" and not scen.get("refit_other") and not res.violations \
+                and scen["series"]["seed"] % 3 == 0:
+            with peers.paused(), sched.scenario_schedule(sched.Scheduler("fifo", 0)):
+                try:
+                    q = ref.predict()
+                except Exception:
+                    q = None
+            if q is not None:
+                cur = list(comp.forecasters)
+                longer = scen["series"]["seed"] % 2 == 0 or len(cur) < 3
+                new_list = cur + [("extra", peers.SpyForecaster(C.build(
+                    {"kind": "naive", "strategy": "last", "sp": 1, "window_length": None}), tag="extra"))] \
+                    if longer else cur[:-1]
+                ok, _ = run("set_params", lambda: comp.set_params(forecasters=new_list))
+                if ok:
+                    ok, p = run("predict", lambda: comp.predict(None if scen["fh_at_fit"] else steps))
+                    if ok:
+                        res.probe("member_list_reconfigured_without_refit")
+                        if not C.same_series(p, q):
+                            v("differs_from_composition", "after set_params(forecasters=<%d entries>) "
+                              "without a new fit the ensemble forecasts %s, the %s of its %d fitted "
+                              "members is %s" % (len(new_list), C.fmt(p), spec["aggfunc"],
+                                                 len(cur), C.fmt(q)), reconfigured=True)
         # ---- the same object re-configured and fitted again (set_params then fit)
         if kind in ("mux", "ensemble") and scen.get("refit_other") and not res.violations:  # (not "online")
             y1 = y.iloc[:pos]
             if kind == "mux":
                 other = (spec["selected"] + 1) % len(spec["members"])
                 spec2 = dict(spec, selected=other)
-                run("set_params", lambda: comp.set_params(selected_forecaster="m%d" % other))
+                run("set_params", lambda: comp.set_params(selected_forecaster=_mname(spec, other)))
             elif len(spec["members"]) >= 2 and scen["series"]["seed"] % 2 == 0:
                 # a member is replaced by name with a differently configured forecaster
                 new_member = {"kind": "naive", "strategy": "mean", "sp": 1, "window_length": 3}
@@ -405,7 +440,7 @@ def execute(prop, scen):
                     new_member = {"kind": "trend", "degree": 1, "with_intercept": True}
                 spec2 = dict(spec, members=[new_member] + spec["members"][1:])
                 repl = peers.SpyForecaster(C.build(new_member), tag="m0")
-                run("set_params", lambda: comp.set_params(m0=repl))
+                run("set_params", lambda: comp.set_params(**{_mname(spec, 0): repl}))
             else:
                 agg2 = {"mean": "median", "median": "max", "max": "min", "min": "mean"}[spec["aggfunc"]]
                 spec2 = dict(spec, aggfunc=agg2)
@@ -659,7 +694,7 @@ def check_fit_dataflow(v, res, spec, log, y0, steps, ref, user_ids):
                   "was given y[%s..%s] (n=%d)" % (i, fits[0]["y"].get("first"), fits[0]["y"].get("last"),
                                                   fits[0]["y"].get("n"), full["first"], full["last"], full["n"]))
                 return
-            if want and fits[0]["obj"] == user_ids["m%d" % i]:
+            if want and fits[0]["obj"] == user_ids[_mname(spec, i)]:
                 v("member_not_cloned", "member m%d: the user's own object was fitted, not a clone" % i)
                 return
         res.probe("members_are_clones_checked")
